@@ -2369,8 +2369,9 @@ class Scene:
             derivs[aircraft_name].update(self._determine_state_derivs("orientation", "qy", 1, de, orig_state, aircraft_name, **kwargs))
             derivs[aircraft_name].update(self._determine_state_derivs("orientation", "qz", 2, de, orig_state, aircraft_name, **kwargs))
         
-            # Reset state
+            # Reset state (the last perturbation changed the orientation, so the geometry has to be restored too)
             self._airplanes[aircraft_name].set_state(**orig_state)
+            self._perform_geometry_and_atmos_calcs()
             self._solved = False
 
         return derivs
